@@ -1,5 +1,10 @@
 package harness
 
+import (
+	"fmt"
+	"strings"
+)
+
 // ctlJobs: the scenario product of family "ctl" (see fam_ctl.go).
 //
 // quick:    preemption bound 1 on the whole product; bound 2 where no
@@ -62,6 +67,14 @@ func init() {
 			{"mv w/d/a w/o/a ;; mv w/d/b w/o/b", "mv w/o/a w/d/a", "mv w/d/a w/d/c"},
 			{"mv w/f w/g ;; mv w/o/p w/d/p", "touch w/f ;; A w/f", "mv w/d/p w/o/p"},
 		}
+		// more unmatched moves out than the ten-slot cookie ring holds, one at a time and in one burst
+		var one []string
+		var burst []string
+		for i := 0; i < 13; i++ {
+			one = append(one, fmt.Sprintf("touch w/d/t%d ;; mv w/d/t%d w/o/t%d", i, i, i))
+			burst = append(burst, fmt.Sprintf("touch w/d/u%d", i), fmt.Sprintf("mv w/d/u%d w/o/u%d", i, i))
+		}
+		hs = append(hs, append(one, "mv w/d/a w/d/c", "L"), []string{strings.Join(burst, " ;; "), "mv w/d/a w/d/c", "R w/d"})
 		return chunk(map[string]any{"fix": "std", "init": []string{"A w/d", "A w/f"}}, hs, nil, 1)
 	}
 	Checks["C05"] = &CheckDef{Prop: "C05", Technique: "stateless model checking of the real code: preemption-bounded exhaustive schedule enumeration under a cooperative scheduler; oracle = no API call left blocked in any maximal execution",
